@@ -55,20 +55,26 @@ func selectByFile(pkgs []*packages.Package, file string) *packages.Package {
 	return nil
 }
 
+// commonPrefix returns the deepest directory containing all the given
+// (absolute, cleaned) directories. The comparison is done on path elements, not on characters:
+// the common root of "/a/foo" and "/a/foobar" is "/a".
 func commonPrefix(paths []string) string {
-	index := 0
-	first := paths[0]
-	for ; index < len(first); index++ {
-		c := first[index]
-		for _, other := range paths {
-			if index >= len(other) || other[index] != c {
-				// no more prefix
-				return first[:index]
-			}
+	sep := string(filepath.Separator)
+	first := strings.Split(paths[0], sep)
+	common := len(first)
+	for _, other := range paths[1:] {
+		chunks := strings.Split(other, sep)
+		index := 0
+		for index < common && index < len(chunks) && chunks[index] == first[index] {
+			index++
 		}
+		common = index
 	}
-
-	return first
+	out := strings.Join(first[:common], sep)
+	if out == "" && strings.HasPrefix(paths[0], sep) {
+		return sep // only the file system root is shared
+	}
+	return out
 }
 
 // LoadSources returns for each source file, the `*packages.Package` containing it.
